@@ -322,6 +322,25 @@ def sum_value(s):
     return s
 
 
+def vary_layout(rng, a):
+    """the same array VALUES in a memory layout drawn from: C order, Fortran order, a transposed view of a C array, a strided
+    (non-contiguous) view.  Results of the code under contract must not depend on it."""
+    a = np.asarray(a)
+    if a.ndim == 0 or a.size == 0:
+        return a
+    k = int(rng.integers(0, 4))
+    if k == 0:
+        return np.ascontiguousarray(a)
+    if k == 1:
+        return np.asfortranarray(a)
+    if k == 2 and a.ndim >= 2:
+        return np.ascontiguousarray(a.T).T
+    big = np.empty(tuple(2 * d for d in a.shape), dtype=a.dtype)
+    view = big[tuple(slice(None, None, 2) for _ in a.shape)]
+    view[...] = a
+    return view
+
+
 class TF(float):
     """a float read out of an array by a contract clause: `==` / `!=` on it mean equality up to rounding (ctx.tol, the same
     tolerance as approx), because clauses are written as exact real-arithmetic statements (A1) and replayed on binary floats;
